@@ -27,3 +27,21 @@ Theorem C01_store_shape_preserved :
   grows D s (fst (run_calls D host listened maxdepth fuel s calls)).
 Proof. exact run_calls_mono. Qed.
 Print Assumptions C01_store_shape_preserved.
+
+(* the outcome W assigns to a call does not depend on the fuel: once an execution finishes with some fuel it
+   finishes with the same store and result for every larger fuel (so the fixed fuel used by the correspondence
+   run computes THE specified outcome; cases where the model runs out of fuel are skipped and counted) *)
+From Verif Require Import Proofs.SemFuelP.
+Theorem C01_outcome_independent_of_fuel :
+  forall D host listened maxdepth fu fu' s fa args s' r, (fu <= fu')%nat ->
+  call_export D host listened maxdepth fu s fa args = (s', r) -> r <> RFuel ->
+  call_export D host listened maxdepth fu' s fa args = (s', r).
+Proof. exact call_export_fuel_mono. Qed.
+Print Assumptions C01_outcome_independent_of_fuel.
+
+Theorem C01_exec_fuel_monotone :
+  forall D host listened maxdepth fu fu' depth ii s f is o, (fu <= fu')%nat ->
+  exec D host listened maxdepth fu depth ii s f is = o -> o <> OutOfFuel ->
+  exec D host listened maxdepth fu' depth ii s f is = o.
+Proof. exact exec_fuel_mono. Qed.
+Print Assumptions C01_exec_fuel_monotone.
